@@ -19,7 +19,7 @@ from lib import coqrun
 VERIF = Path(__file__).resolve().parent.parent
 CORPUS = VERIF / 'corpus'
 COQ_TARGETS = ['theories/ProdCases.vo']
-FUEL = 20000
+FUEL = 400000
 
 ZONES_QUICK = ['Europe/Berlin', 'America/Nuuk', 'Australia/Lord_Howe', 'America/Havana', 'Africa/Casablanca',
                'UTC', 'America/St_Johns', 'Pacific/Auckland']
@@ -29,13 +29,14 @@ ZONES_MORE = ['Asia/Tehran', 'America/Sao_Paulo', 'Antarctica/Troll', 'Asia/Kolk
               'Atlantic/Azores', 'Pacific/Fiji', 'America/Caracas', 'Asia/Kathmandu', 'Pacific/Norfolk',
               'America/Chicago', 'Asia/Dhaka', 'Europe/Moscow', 'Asia/Pyongyang']
 PER_ZONE = {'quick': 90, 'thorough': 900}
+PER_ZONE_C16 = {'quick': 3, 'thorough': 30}
 
 ASSUMPTIONS = {p: [
     'the time-zone table (2000-2037) of each zone is extracted from whenever itself under TZ=<zone> on every run',
     'random.uniform is replaced by a scripted source; its recorded answers are the model\'s draw oracle '
     '(window bounds compared with a 1 microsecond tolerance: the implementation shifts windows in float seconds)',
-    'interval filter search: model fuel 20000 rounds; implementation budget 2 s per query',
-] for p in ('C04', 'C05', 'C06', 'C13', 'C14')}
+    'interval filter search: model fuel 400000 rounds; implementation budget 1 s per query',
+] for p in ('C04', 'C05', 'C06', 'C13', 'C14', 'C16')}
 RULES = {
     'C04': 'case = expression + query sequence; non-trivial iff the expression has at least one operation or filter '
            'and at least one answer; distinct by hash of (zone, expression, queries)',
@@ -43,6 +44,7 @@ RULES = {
     'C06': 'non-trivial iff the chain crosses a day on which the wall-clock time is skipped or repeated',
     'C13': 'non-trivial iff the operation changed the underlying occurrence in at least one answer',
     'C14': 'non-trivial iff the chain has at least 10 firings',
+    'C16': 'every case is non-trivial: a filter that never accepts (or a very sparse one) on a time / group / operation / interval trigger',
 }
 
 
@@ -90,6 +92,28 @@ def gen_case(prop: str, ctx: Ctx, rng: random.Random) -> dict:
             e = ['jitter', base, lo, hi, None]
         e = sanitize(e, rng)
         return {'expr': e, 'chain': [ref, 25], 'fracs': [rng.random() for _ in range(16)] + [0.0, 1.0]}
+    if prop == 'C16':
+        unsat = ctx.unsat_filter()
+        kind = rng.choice(['time', 'time', 'group', 'op', 'interval', 'sparse'])
+        if kind == 'time':
+            e = ['time', ctx.tod(), rng.choice(['skip', 'earlier', 'later', 'after']), rng.choice(['skip', 'earlier', 'later', 'twice']), unsat]
+        elif kind == 'group':
+            e = ['group', [['time', 12 * HOUR, 'skip', 'skip', None], ['interval', ref, 6 * HOUR, None]], unsat]
+        elif kind == 'op':
+            e = [rng.choice(['offset', 'jitter']), ['time', 6 * HOUR, 'skip', 'skip', None]] + \
+                ([-HOUR] if rng.random() < 0.5 else [0, 60 * NS])
+            if len(e) == 3:
+                e = ['offset', e[1], e[2], unsat]
+            else:
+                e = ['jitter', e[1], e[2], e[3], unsat]
+        elif kind == 'interval':
+            e = ['interval', ref, rng.choice([HOUR, 15 * MIN, DAY]), unsat]
+            return {'expr': e, 'queries': [ref + 1], 'fracs': [0.5], 'budget': 3, 'fuel': 3000, 'unsat_interval': True}
+        else:
+            # satisfiable but sparse: terminates after many steps
+            e = ['interval', ref, rng.choice([NS, 7 * NS]), ['weekday', [rng.randrange(1, 8)]]]
+            return {'expr': e, 'queries': [ref + 1], 'fracs': [0.5], 'budget': 25, 'fuel': 700000, 'nocoq': True}
+        return {'expr': e, 'queries': [ref], 'fracs': [0.5], 'budget': 25, 'nocoq': rng.random() < 0.75}
     raise ValueError(prop)
 
 
@@ -147,6 +171,14 @@ def oracle(prop: str, zone: str, ref: Ref, c: dict) -> tuple[list, bool]:
             bad.append(f'get_next({dt}) answered {v}, which is not after the reference instant')
     if prop == 'C04':
         return bad, bool(oks)
+    if prop == 'C16':
+        for dt, r in res:
+            if r[0] == 'budget':
+                what = 'get_next did not end within its time budget'
+                if c.get('unsat_interval'):
+                    what += ' (interval trigger with a filter that never accepts)'
+                bad.append(what)
+        return bad, True
     if prop in ('C05', 'C06') and is_base(e):
         anchors = interval_anchors(e, res)
         for dt, v in oks:
@@ -232,7 +264,10 @@ def oracle(prop: str, zone: str, ref: Ref, c: dict) -> tuple[list, bool]:
                     break
                 occ.append(b)
                 x = b
-            if not occ:
+            if len(occ) < 2:
+                return bad, False
+            # the property speaks about jitter ranges narrower than the base period
+            if min(b - a for a, b in zip(occ, occ[1:])) <= 2 * (abs(lo) + abs(hi)) + 200_000:
                 return bad, False
             decided = True
             used = collections.Counter()
@@ -274,6 +309,8 @@ def nontrivial(prop: str, c: dict, decided: bool, ref: Ref) -> bool:
 def run(prop: str, tier: str, seed: int, scratch: Path, replay=None, model_ok=True) -> dict:
     rng = random.Random(f'{prop}-{seed}')
     zones = list(ZONES_QUICK) if tier == 'quick' else ZONES_QUICK + ZONES_MORE
+    if prop == 'C16' and tier == 'quick':
+        zones = zones[:5]
     per_zone: dict[str, list] = {}
     if replay:
         payload = json.loads(Path(replay).read_text())
@@ -290,7 +327,7 @@ def run(prop: str, tier: str, seed: int, scratch: Path, replay=None, model_ok=Tr
                     cc = json.loads(p.read_text())['case']
                     if cc.get('zone') == z:
                         cases.append(cc)
-            cases += [gen_case(prop, ctx, rng) for _ in range(PER_ZONE[tier])]
+            cases += [gen_case(prop, ctx, rng) for _ in range(PER_ZONE[tier] if prop != 'C16' else PER_ZONE_C16[tier])]
             for c in cases:
                 c['zone'] = z
             per_zone[z] = cases
@@ -315,11 +352,13 @@ def run(prop: str, tier: str, seed: int, scratch: Path, replay=None, model_ok=Tr
                 dist[k] += 1
             for _, r in c['results']:
                 answers[r[0] if r[0] != 'raise' else r[1]] += 1
-            if any(r[0] == 'budget' for _, r in c['results']) or len(c['draws']) > 400:
+            if prop != 'C16' and (any(r[0] == 'budget' for _, r in c['results']) or len(c['draws']) > 400):
                 skipped_budget += 1
                 continue
             bad, decided = oracle(prop, z, ref, c)
             heavy = c.get('slow') or any(r == ['raise', 'EInfiniteLoop'] for _, r in c['results'])
+            if prop == 'C16':
+                heavy = bool(c.get('nocoq')) or len(c['draws']) > 400
             h = hash(json.dumps([z, c['expr'], c['results']], sort_keys=True))
             if h not in seen and nontrivial(prop, c, decided, ref):
                 nontriv += 1
@@ -389,14 +428,14 @@ def search(prop: str, seed: int, scratch: Path) -> list:
     per_zone = {}
     for z in zones:
         ctx = Ctx(rng, tables[z])
-        per_zone[z] = [dict(gen_case(prop, ctx, rng), zone=z) for _ in range(400)]
+        per_zone[z] = [dict(gen_case(prop, ctx, rng), zone=z) for _ in range(400 if prop != 'C16' else 6)]
     with ThreadPoolExecutor(max_workers=coqrun.JOBS) as ex:
         outs = list(ex.map(lambda z: (z, _impl_zone(z, per_zone[z], scratch)), zones))
     found = []
     for z, results in outs:
         ref = Ref(z)
         for c in results:
-            if any(r[0] == 'budget' for _, r in c['results']):
+            if prop != 'C16' and any(r[0] == 'budget' for _, r in c['results']):
                 continue
             bad, _ = oracle(prop, z, ref, c)
             for msg in bad[:1]:
@@ -407,6 +446,9 @@ def search(prop: str, seed: int, scratch: Path) -> list:
 
 def match_known(prop: str, v: dict, known: list):
     for f in known:
+        if f.get('class') == 'F9' and prop == 'C16':
+            if v['case'].get('unsat_interval') and 'never accepts' in v['what']:
+                return f['id']
         if f.get('class') == 'F6' and prop == 'C14':
             e = v['case']['expr']
             if e[0] == 'jitter' and e[2] < 0 and 'firings attributed' in v['what']:
